@@ -5,6 +5,7 @@ import SonicModel.Lemmas.StrDecodeMain
 import SonicModel.Lemmas.SkipRefine
 import SonicModel.Lemmas.StrBlockProof
 import SonicModel.Lemmas.StrInplaceProof
+import SonicModel.Lemmas.ChainDoc
 namespace Sonic.Thm.C09
 open Sonic Gen Impl
 
